@@ -174,6 +174,17 @@ class Pipeline:
                     f"Path generated for {file!r}: {new_relative_path} is not relative to the input directory",
                 )
 
+            # Directories missing on the way to the destination are going to be created:
+            # they have to lie in the input directory too (think of "../new/../<input>/x")
+            destination_parent = file.input_directory / new_relative_path.parent
+            for directory in (destination_parent, *destination_parent.parents):
+                if directory.exists():
+                    break
+                if not directory.resolve().is_relative_to(file.input_directory):
+                    raise InvalidDestinationError(
+                        f"Path generated for {file!r}: {new_relative_path} leads through a directory outside of the input directory",
+                    )
+
             try:
                 self.renamer(file.relative_path, new_relative_path)
             except FileExistsError:
